@@ -113,7 +113,7 @@ SPEC = {
                  "when the run is cancelled or a pool fails, and some runs log at debug level to a slow output."),
         "note": ("Hang verdicts use a 20 s deadline (normal runs take < 50 ms). Guns whose Bind failed and the warm-up probe gun are not "
                  "required to be closed. A nil result - after an in-progress cancel or not - is accepted only if the history shows all work of every pool was "
-                 "done. Promptness of the cancellation error is a 1 s bound (normal: well under a millisecond; the cli gives up on a "
+                 "done. Promptness of the cancellation error is a 1 s bound (believed only when the load probe of the process saw its own 2 ms sleeps woken within 25 ms during the run; a disturbed miss is repeated up to three times and otherwise counted inconclusive_machine_load, never as a pass) (normal: well under a millisecond; the cli gives up on a "
                  "SIGTERM'ed run after 3 s), tested against pools that sit in a context-blind step for 1.5-2 s; Engine.Wait is still "
                  "required to return (it does once the step ends)."),
     },
